@@ -28,9 +28,9 @@ STR = r'"(?:\\.|[^"\\])*"'
 
 def extract(g, X):
     cl = X.cl
-    font = X.strip_comments(X.read("pdf/src/font.rs"))
-    lexer = X.strip_comments(X.read("pdf/src/parser/lexer/mod.rs"))
-    strl = X.strip_comments(X.read("pdf/src/parser/lexer/str.rs"))
+    font = X.source("pdf/src/font.rs")
+    lexer = X.source("pdf/src/parser/lexer/mod.rs")
+    strl = X.source("pdf/src/parser/lexer/str.rs")
 
     # ---- lexer/mod.rs: white-space and delimiter classes used by Lexer::next_word -------------------
     B, iv = X.BYTE, X.int_value
@@ -50,13 +50,16 @@ def extract(g, X):
         pos = m.group(1)
         (params, expr), = X.closures(b, "position")
         ends = X.ordered(X.byte_set(expr, X.closure_var(params), lexer), [10, 13])
-        if not re.search(r"None\s*=>\s*\{?\s*" + pos + r"\s*=\s*self\.buf\.len\(\)", b):
+        # an unterminated comment runs to the end of the buffer: the fallback of the search for the line end
+        # (`None => pos = self.buf.len()`, `.map_or(self.buf.len(), …)`, `.unwrap_or(..)`)
+        if "self.buf.len()" not in X.none_values(b):
             raise ValueError("an unterminated comment no longer runs to the end of the buffer")
         n = re.search(r"self\.buf\[\s*" + pos + r"\s*\]\s*==\s*(" + B + r")", b)
-        pair = re.search(r'(\w+)\s*==\s*(b"[^"]*"|&?\[[^\]]*\])\s*\|\|\s*\1\s*==\s*(b"[^"]*"|&?\[[^\]]*\])', b)
-        p1, p2 = X.byte_string(pair.group(2)), X.byte_string(pair.group(3))
-        if len(p1) != 2 or len(p2) != 2 or p1[0] != p1[1] or p2[0] != p2[1]:
+        # the two-byte delimiters: every 2-byte literal the function tests (`slice == b"<<" || …`, `matches!(.., Some(b"<<" | b">>"))`)
+        pairs = [X.byte_string(t) for t in re.findall(r'b"(?:\\.|[^"\\]){2}"|&?\[\s*' + B + r'\s*,\s*' + B + r'\s*\]', b)]
+        if len(pairs) != 2 or any(len(q) != 2 or q[0] != q[1] for q in pairs):
             raise ValueError("double delimiters")
+        p1, p2 = pairs
         return (str(iv(m.group(2))), cl(ends), str(iv(n.group(1))), cl(X.ordered([p1[0], p2[0]], [60, 62])))
     g.attempt([("font_comment_start", "N"), ("font_comment_ends", "list N"), ("font_name_start", "N"), ("font_double_delims", "list N")],
               "font: lexer/mod.rs:Lexer::next_word", comment)
@@ -88,7 +91,7 @@ def extract(g, X):
               "font: lexer/str.rs:HexStringLexer::next_hex_byte", hexranges)
 
     # ---- parser/mod.rs: which first lexemes start a string / an array ----------------------------------------
-    parser = X.strip_comments(X.read("pdf/src/parser/mod.rs"))
+    parser = X.source("pdf/src/parser/mod.rs")
 
     def starts():
         b = X.fn_body(parser, "_parse_with_lexer_ctx")
